@@ -76,4 +76,25 @@ theorem silent_origin_spares_tunnels (s : Shared) :
 theorem closing_on_clear_kills_tunnels :
     (silentOrigin true { cache := some .live, tunnels := 3 }).1.tunnels = 0 := by decide
 
+/-! ### a load balancer over stateless members -/
+
+/-- once every member's upstream is up again every request through the balancer succeeds, whatever failed before and
+    wherever the rotation stands -/
+theorem lb_recovers (up : Nat → Bool) (n rr : Nat) (hn : 0 < n) (hup : ∀ m, m < n → up m = true) :
+    lbAttempt up n rr = .ok := by
+  simp [lbAttempt, statelessAttempt, hup (rr % n) (Nat.mod_lt _ hn)]
+
+/-- while some member is down, a request fails only when it is that member's turn — and fails fast -/
+theorem lb_outage_outcomes (up : Nat → Bool) (n rr : Nat) : lbAttempt up n rr ≠ .hang ∧ lbAttempt up n rr ≠ .timedOut := by
+  unfold lbAttempt statelessAttempt
+  split <;> simp
+
+/-- marking failed members for good (seeded change C19d): member 0 fails once, later member 1 fails once, both are up
+    again — and nothing is served any more -/
+theorem sticky_marks_never_recover :
+    let s1 := lbStickyAttempt (fun m => m != 0) [] 2 0          -- member 0 down: marked
+    let s2 := lbStickyAttempt (fun m => m != 1) s1.1 2 1        -- member 0 back, member 1 down: marked
+    let s3 := lbStickyAttempt (fun _ => true) s2.1 2 2          -- everything up
+    s1.2 = .failFast ∧ s2.2 = .failFast ∧ s3.2 = .failFast := by decide
+
 end Redproxy.Props.C19
